@@ -381,8 +381,57 @@ Proof.
   - destruct (Nat.eqb n m); reflexivity.
 Qed.
 
+Lemma upd_length f n : forall l, length (upd n f l) = length l.
+Proof. induction n as [|n IH]; intros [|x r]; cbn [upd length]; auto. Qed.
+Lemma getn_upd_same lg f n l : getn n (mkcluster lg (upd n f l)) = match nth_error l n with Some x => f x | None => node0 end.
+Proof. unfold getn. cbn [nodes]. destruct (nth_error l n) as [x|] eqn:E.
+  - apply nth_error_nth. rewrite nth_error_upd, Nat.eqb_refl, E. reflexivity.
+  - apply nth_overflow. rewrite upd_length. now apply nth_error_None. Qed.
+Lemma getn_upd_fix lg f n l : f node0 = node0 -> getn n (mkcluster lg (upd n f l)) = f (nth n l node0).
+Proof. intros H0. rewrite getn_upd_same. destruct (nth_error l n) as [x|] eqn:E.
+  - now rewrite (nth_error_nth l n node0 E).
+  - rewrite nth_overflow by (now apply nth_error_None). now rewrite H0. Qed.
+Lemma getn_upd_other lg f n i l : n <> i -> getn i (mkcluster lg (upd n f l)) = nth i l node0.
+Proof. intros H. unfold getn. cbn [nodes]. destruct (nth_error l i) as [x|] eqn:E.
+  - rewrite (nth_error_nth l i node0 E). apply nth_error_nth. rewrite nth_error_upd.
+    destruct (Nat.eqb_spec n i); [contradiction|exact E].
+  - rewrite (nth_overflow l) by (now apply nth_error_None). apply nth_overflow. rewrite upd_length. now apply nth_error_None. Qed.
+
+
+(* how the position of a replica moves *)
+Lemma applied_apply_entry op nd : applied (apply_entry op nd) = applied nd \/ applied (apply_entry op nd) = S (applied nd).
+Proof. unfold apply_entry. destruct (crashed nd); [now left|].
+  destruct op as [p|p|p| | |]; cbn [applied];
+    repeat match goal with |- context [if ?b then _ else _] => destruct b end; cbn [applied]; auto. Qed.
+Lemma applied_moves_l cl e n :
+  applied (getn n (step cl e)) = applied (getn n cl) \/ applied (getn n (step cl e)) = S (applied (getn n cl)) \/
+  (exists src k s, e = MRestore n src k /\ nth_error (snaps (getn src cl)) k = Some s /\ applied (getn n (step cl e)) = fst s) \/
+  (e = MRestart n /\ applied (getn n (step cl e)) = 0%nat).
+Proof.
+  destruct e as [op|m|m|m|m src k|m]; cbn [step].
+  - left. destruct (accepts op); reflexivity.
+  - destruct (nth_error (log cl) (applied (getn m cl))) as [op|]; [|now left].
+    destruct (Nat.eq_dec m n) as [->|Hne]; [|left; now rewrite getn_upd_other].
+    rewrite getn_upd_same. unfold getn. destruct (nth_error (nodes cl) n) as [x|] eqn:E; [|left; now rewrite nth_overflow by (now apply nth_error_None)].
+    rewrite (nth_error_nth _ _ node0 E). destruct (applied_apply_entry op x) as [H|H]; auto.
+  - left. destruct (Nat.eq_dec m n) as [->|Hne]; [|now rewrite getn_upd_other].
+    rewrite getn_upd_same. unfold getn. destruct (nth_error (nodes cl) n) as [x|] eqn:E; [|now rewrite nth_overflow by (now apply nth_error_None)].
+    rewrite (nth_error_nth _ _ node0 E). unfold snap_req. destruct (crashed x); reflexivity.
+  - left. destruct (Nat.eq_dec m n) as [->|Hne]; [|now rewrite getn_upd_other].
+    rewrite getn_upd_same. unfold getn. destruct (nth_error (nodes cl) n) as [x|] eqn:E; [|now rewrite nth_overflow by (now apply nth_error_None)].
+    rewrite (nth_error_nth _ _ node0 E). unfold snap_persist. destruct (pending x); reflexivity.
+  - destruct (nth_error (snaps (getn src cl)) k) as [s|] eqn:Es; [|now left].
+    destruct (Nat.eq_dec m n) as [->|Hne]; [|left; now rewrite getn_upd_other].
+    rewrite getn_upd_same. unfold getn. destruct (nth_error (nodes cl) n) as [x|] eqn:E; [|left; now rewrite nth_overflow by (now apply nth_error_None)].
+    rewrite (nth_error_nth _ _ node0 E). unfold restore. destruct (crashed x); [now left|].
+    right. right. left. exists src, k, s. auto.
+  - destruct (Nat.eq_dec m n) as [->|Hne]; [|left; now rewrite getn_upd_other].
+    rewrite getn_upd_same. unfold getn. destruct (nth_error (nodes cl) n) as [x|] eqn:E; [|left; now rewrite nth_overflow by (now apply nth_error_None)].
+    right. right. right. split; reflexivity.
+Qed.
+
 (* ------------------------------------------------------------------ *)
-(* the invariant of clean, forward schedules                           *)
+(* the invariant of clean, pinned schedules                            *)
 (* ------------------------------------------------------------------ *)
 Definition good_op (op : logop) : bool := clean_op op && accepts op.
 
@@ -450,12 +499,13 @@ Proof.
     eapply catching_up_weaken; eauto.
 Qed.
 
-Lemma good_restore lg nd s : node_good lg nd -> snap_good lg s -> (applied nd <= fst s)%nat -> node_good lg (restore s nd).
+(* in either direction: the label of the snapshot may be below what the replica had applied *)
+Lemma good_restore lg nd s : node_good lg nd -> snap_good lg s -> (forall l, pending nd = Some l -> (l <= fst s)%nat) ->
+  node_good lg (restore s nd).
 Proof.
   intros [H1 H2 H3 H4 H5 H6 H7 H8] [S1 [S2 S3]] Hf. unfold restore. rewrite H2.
   constructor; simpl; auto.
   - now rewrite restore_onto_id.
-  - intros l Hl. specialize (H6 l Hl). lia.
   - now rewrite restore_onto_id.
 Qed.
 
@@ -481,7 +531,7 @@ Proof.
   split; [reflexivity|]. simpl. induction k as [|k IH]; simpl; constructor; auto using good_node0.
 Qed.
 
-Lemma step_good cl e : cl_good cl -> clean_ev e = true -> ev_forward cl e = true -> cl_good (step cl e).
+Lemma step_good cl e : cl_good cl -> clean_ev e = true -> ev_pinned cl e = true -> cl_good (step cl e).
 Proof.
   intros [HL HN] Hc Hf. destruct e as [op|n|n|n|n src k|n]; simpl in *.
   - destruct (accepts op) eqn:Ha; [|split; auto]. split; simpl.
@@ -500,30 +550,30 @@ Proof.
       * rewrite Forall_forall in HN. specialize (HN y (nth_error_In _ _ Hy)).
         destruct HN as [_ _ _ _ _ _ _ G8]. rewrite Forall_forall in G8. apply G8. eapply nth_error_In; eauto.
       * simpl in Hs. destruct k; discriminate.
-    + now apply Nat.leb_le.
+    + intros l Hl. rewrite Hl in Hf. now apply Nat.leb_le.
   - split; simpl; auto. apply Forall_upd; auto. intros x _ Gx. now apply good_restart.
 Qed.
 
-Lemma run_good es : forall cl, cl_good cl -> forallb clean_ev es = true -> run_ok ev_forward cl es = true -> cl_good (run cl es).
+Lemma run_good es : forall cl, cl_good cl -> forallb clean_ev es = true -> run_ok ev_pinned cl es = true -> cl_good (run cl es).
 Proof.
   unfold run. induction es as [|e r IH]; intros cl G Hc Hf; simpl in *; auto.
   apply andb_true_iff in Hc. destruct Hc as [Hc1 Hc2]. apply andb_true_iff in Hf. destruct Hf as [Hf1 Hf2].
   apply IH; auto. now apply step_good.
 Qed.
 
-Lemma good_node k es n nd : forallb clean_ev es = true -> run_ok ev_forward (init k) es = true ->
+Lemma good_node k es n nd : forallb clean_ev es = true -> run_ok ev_pinned (init k) es = true ->
   nth_error (nodes (run (init k) es)) n = Some nd -> node_good (log (run (init k) es)) nd.
 Proof.
   intros Hc Hf Hn. destruct (run_good es (init k) (cl_good_init k) Hc Hf) as [_ HN].
   rewrite Forall_forall in HN. apply HN. eapply nth_error_In; eauto.
 Qed.
 
-Lemma catching_up_l k es n nd : forallb clean_ev es = true -> run_ok ev_forward (init k) es = true ->
+Lemma catching_up_l k es n nd : forallb clean_ev es = true -> run_ok ev_pinned (init k) es = true ->
   nth_error (nodes (run (init k) es)) n = Some nd ->
   catching_up (log (run (init k) es)) (applied nd) (st nd).
 Proof. intros Hc Hf Hn. now destruct (good_node k es n nd Hc Hf Hn). Qed.
 
-Lemma caught_up_exact_l k es n nd : forallb clean_ev es = true -> run_ok ev_forward (init k) es = true ->
+Lemma caught_up_exact_l k es n nd : forallb clean_ev es = true -> run_ok ev_pinned (init k) es = true ->
   nth_error (nodes (run (init k) es)) n = Some nd ->
   applied nd = length (log (run (init k) es)) -> st nd = replay (log (run (init k) es)).
 Proof.
@@ -531,11 +581,50 @@ Proof.
   apply catching_up_exact; auto. now rewrite <- Ha.
 Qed.
 
-Lemma served_l k es n nd : forallb clean_ev es = true -> run_ok ev_forward (init k) es = true ->
+(* no crash, State() never errors: whatever is restored where and when (clean ops only) *)
+Definition node_sane (nd : node) : Prop := dirty nd = false /\ crashed nd = false /\ incons nd = false.
+Lemma step_sane cl e : forallb good_op (log cl) = true -> Forall node_sane (nodes cl) -> clean_ev e = true ->
+  forallb good_op (log (step cl e)) = true /\ Forall node_sane (nodes (step cl e)).
+Proof.
+  intros HL HN Hc. destruct e as [op|n|n|n|n src k|n]; simpl in *.
+  - destruct (accepts op) eqn:Ha; [|split; auto]. split; simpl; auto.
+    rewrite forallb_app, HL. simpl. unfold good_op. now rewrite Hc, Ha.
+  - destruct (nth_error (log cl) (applied (getn n cl))) as [op|] eqn:Hn; [|split; auto].
+    split; simpl; auto. apply Forall_upd; auto. intros x Hx [G1 [G2 G3]].
+    assert (Hg : good_op op = true) by (rewrite forallb_forall in HL; apply HL; eapply nth_error_In; eauto).
+    apply andb_true_iff in Hg. destruct Hg as [Hcl Ha].
+    destruct (apply_entry_clean op x Hcl Ha G1 G2) as [_ [_ [E3 [E4 [E5 _]]]]]. repeat split; congruence.
+  - split; simpl; auto. apply Forall_upd; auto. intros x _ [G1 [G2 G3]]. unfold snap_req. rewrite G2. repeat split; auto.
+  - split; simpl; auto. apply Forall_upd; auto. intros x _ [G1 [G2 G3]]. unfold snap_persist.
+    destruct (pending x); repeat split; auto.
+  - destruct (nth_error (snaps (getn src cl)) k) as [s|]; [|split; auto].
+    split; simpl; auto. apply Forall_upd; auto. intros x _ [G1 [G2 G3]]. unfold restore. rewrite G2. repeat split; auto.
+  - split; simpl; auto. apply Forall_upd; auto. intros x _ _. repeat split; auto.
+Qed.
+Lemma run_sane es : forall cl, forallb good_op (log cl) = true -> Forall node_sane (nodes cl) -> forallb clean_ev es = true ->
+  Forall node_sane (nodes (run cl es)).
+Proof.
+  unfold run. induction es as [|e r IH]; intros cl HL HN Hc; simpl in *; auto.
+  apply andb_true_iff in Hc. destruct Hc as [Hc1 Hc2]. destruct (step_sane cl e HL HN Hc1) as [HL' HN']. now apply IH.
+Qed.
+Lemma served_l k es n nd : forallb clean_ev es = true ->
   nth_error (nodes (run (init k) es)) n = Some nd -> crashed nd = false /\ view nd <> None.
 Proof.
-  intros Hc Hf Hn. destruct (good_node k es n nd Hc Hf Hn) as [_ G2 G3 _ _ _ _ _]. split; auto.
+  intros Hc Hn. assert (H0 : Forall node_sane (nodes (init k))).
+  { simpl. apply Forall_forall. intros x Hx. apply repeat_spec in Hx. subst x. repeat split; reflexivity. }
+  pose proof (run_sane es (init k) eq_refl H0 Hc) as HN. rewrite Forall_forall in HN.
+  destruct (HN nd (nth_error_In _ _ Hn)) as [_ [G2 G3]]. split; auto.
   unfold view. rewrite G3. destruct (inited nd); simpl; discriminate.
+Qed.
+
+(* atomic snapshots are pinned *)
+Lemma atomic_pinned cl e : ev_atomic cl e = true -> ev_pinned cl e = true.
+Proof. destruct e as [op|n|n|n|n src k|n]; simpl; auto. destruct (pending (getn n cl)); [discriminate|reflexivity]. Qed.
+Lemma run_ok_impl (P Q : cluster -> mevent -> bool) : (forall cl e, P cl e = true -> Q cl e = true) ->
+  forall es cl, run_ok P cl es = true -> run_ok Q cl es = true.
+Proof.
+  intros H. induction es as [|e r IH]; intros cl Hr; simpl in *; auto.
+  apply andb_true_iff in Hr. destruct Hr as [H1 H2]. now rewrite (H _ _ H1), (IH _ H2).
 Qed.
 
 (* ------------------------------------------------------------------ *)
@@ -762,7 +851,7 @@ Definition race_events : list mevent :=
    MPersist 0; MRestart 0; MRestore 0 0 0; MApply 0].
 
 Lemma race_not_a_prefix :
-  forallb clean_ev race_events = true /\ run_ok ev_forward (init 1) race_events = true /\
+  forallb clean_ev race_events = true /\ run_ok ev_pinned (init 1) race_events = true /\
   forall m, st (getn 0 (run (init 1) race_events)) <> replay (firstn m (log (run (init 1) race_events))).
 Proof.
   split; [reflexivity|]. split; [vm_compute; reflexivity|].
@@ -772,11 +861,11 @@ Qed.
 (* S19: a committed pin with an origin is swallowed; the replica has applied the whole log and misses it *)
 Definition origins_events : list mevent := [MCommit (LPin (wpin_origins 0)); MApply 0].
 Lemma origins_swallowed :
-  run_ok ev_forward (init 1) origins_events = true /\ run_ok ev_atomic (init 1) origins_events = true /\
+  run_ok ev_atomic (init 1) origins_events = true /\
   let cl := run (init 1) origins_events in
   applied (getn 0 cl) = length (log cl) /\ view (getn 0 cl) = Some [] /\ st (getn 0 cl) <> replay (log cl).
 Proof.
-  split; [vm_compute; reflexivity|]. split; [vm_compute; reflexivity|]. simpl.
+  split; [vm_compute; reflexivity|]. simpl.
   split; [reflexivity|]. split; [reflexivity|]. intros E. vm_compute in E. congruence.
 Qed.
 
@@ -792,12 +881,12 @@ Lemma merge_keeps_unpinned :
   sget 0 snap = None /\ sget 0 (restore_merge cur snap) <> None /\ sget 0 (restore_onto cur snap) = None.
 Proof. vm_compute. repeat split; congruence. Qed.
 
-(* non-vacuity: a clean, forward, atomic schedule with an install onto a non-empty replica and a restart *)
+(* non-vacuity: a clean, pinned, atomic schedule with an install onto a non-empty replica and a restart *)
 Definition demo_events : list mevent :=
   [MCommit (LPin (wpin 0 1)); MApply 0; MApply 1; MCommit (LUnpin (wpin 0 0)); MApply 0; MCommit (LPin (wpin 1 1)); MApply 0;
    MSnapReq 0; MPersist 0; MRestore 1 0 0; MRestart 0; MRestore 0 0 0].
 Lemma demo_ok :
-  forallb clean_ev demo_events = true /\ run_ok ev_forward (init 2) demo_events = true /\ run_ok ev_atomic (init 2) demo_events = true /\
+  forallb clean_ev demo_events = true /\ run_ok ev_pinned (init 2) demo_events = true /\ run_ok ev_atomic (init 2) demo_events = true /\
   map fst (st (getn 1 (run (init 2) demo_events))) = [1] /\ applied (getn 1 (run (init 2) demo_events)) = 3%nat.
 Proof. vm_compute. repeat split; reflexivity. Qed.
 
@@ -807,13 +896,41 @@ Proof. split; reflexivity. Qed.
 Lemma unserialisable_refused_l cl p : pin_badutf p = true -> step cl (MCommit (LPin p)) = cl.
 Proof. intros H. simpl. now rewrite H. Qed.
 
+(* a snapshot installed on a replica that is AHEAD of it (hashicorp/raft does that): the replica goes back to the prefix the
+   snapshot is labelled with, and replays; with atomic snapshots every replica stays the replay of a prefix *)
+Definition backward_events : list mevent :=
+  [MCommit (LPin (wpin 0 1)); MApply 0; MApply 1; MSnapReq 1; MPersist 1; MCommit (LPin (wpin 1 1)); MApply 0;
+   MRestore 0 1 0; MApply 0].
+Lemma backward_ok :
+  forallb clean_ev backward_events = true /\ run_ok ev_atomic (init 2) backward_events = true /\
+  applied (getn 0 (run (init 2) (firstn 7 backward_events))) = 2%nat /\
+  applied (getn 0 (run (init 2) (firstn 8 backward_events))) = 1%nat /\
+  map fst (st (getn 0 (run (init 2) (firstn 8 backward_events)))) = [0] /\
+  map fst (st (getn 0 (run (init 2) backward_events))) = [0; 1].
+Proof. vm_compute. repeat split; reflexivity. Qed.
+
+(* S23 with a backward install: FSM.Snapshot at position 2, a snapshot labelled 1 is installed, only then Persist: the snapshot
+   labelled 2 lacks entry 1; the replica restarts from it, has "applied" the whole log and misses a pin for good *)
+Definition backward_race_events : list mevent :=
+  [MCommit (LPin (wpin 0 1)); MApply 1; MSnapReq 1; MPersist 1; MApply 0; MCommit (LPin (wpin 1 1)); MApply 0;
+   MSnapReq 0; MRestore 0 1 0; MPersist 0; MRestart 0; MRestore 0 0 0].
+Lemma backward_race_loses :
+  forallb clean_ev backward_race_events = true /\
+  let cl := run (init 2) backward_race_events in
+  applied (getn 0 cl) = length (log cl) /\ view (getn 0 cl) <> None /\ st (getn 0 cl) <> replay (log cl).
+Proof. split; [reflexivity|]. simpl. split; [reflexivity|]. split; [vm_compute; discriminate|]. intros E. vm_compute in E. congruence. Qed.
+Lemma caught_up_exact_refuted_l :
+  exists k es n, forallb clean_ev es = true /\ applied (getn n (run (init k) es)) = length (log (run (init k) es)) /\
+    st (getn n (run (init k) es)) <> replay (log (run (init k) es)).
+Proof. exists 2%nat, backward_race_events, 0%nat. destruct backward_race_loses as [H1 [H2 [_ H3]]]. auto. Qed.
+
 Lemma prefix_anytime_refuted_l :
-  exists k es n, forallb clean_ev es = true /\ run_ok ev_forward (init k) es = true /\
+  exists k es n, forallb clean_ev es = true /\ run_ok ev_pinned (init k) es = true /\
     forall m, st (getn n (run (init k) es)) <> replay (firstn m (log (run (init k) es))).
 Proof. exists 1%nat, race_events, 0%nat. exact race_not_a_prefix. Qed.
 
 Lemma origins_swallowed_refuted_l :
-  exists k es n, run_ok ev_forward (init k) es = true /\ run_ok ev_atomic (init k) es = true /\
+  exists k es n, run_ok ev_atomic (init k) es = true /\
     applied (getn n (run (init k) es)) = length (log (run (init k) es)) /\ view (getn n (run (init k) es)) = Some [] /\
     st (getn n (run (init k) es)) <> replay (log (run (init k) es)).
 Proof. exists 1%nat, origins_events, 0%nat. exact origins_swallowed. Qed.
